@@ -1222,7 +1222,16 @@ def c06(ctx, res):
 # =====================================================================================================================
 def hash_functions(ctx):
     """crate-local fns that compute a key hash: contain a hash site directly and return u64"""
-    return [b for b in ctx.facts.bodies if ctx.eff.direct[b.path]["hash"] and b.j.get("output", {}).get("s") == "u64"]
+    def hash_like(ty):
+        if ty.get("s") == "u64":
+            return True
+        if ty.get("k") == "adt" and ty.get("local"):
+            a = ctx.facts.adts.get(ty["name"])
+            if a and a.get("kind") == "struct":
+                fs = a["variants"][0]["fields"]
+                return len(fs) == 1 and fs[0]["ty"].get("s") == "u64"      # a private newtype around the hash value
+        return False
+    return [b for b in ctx.facts.bodies if ctx.eff.direct[b.path]["hash"] and hash_like(b.j.get("output", {}))]
 
 
 def _te_c04(ctx):
